@@ -83,6 +83,9 @@ fn body_json(s: &Value) -> Option<Value> {
 }
 
 pub fn vectors(a: &Args) -> i32 {
+    // lookups are also sent through a real blocking server per registration order (the servers' own routing step sits
+    // in front of Router::get): one server and one connection per order, reused
+    let mut servers: std::collections::HashMap<String, std::net::TcpStream> = Default::default();
     std::panic::set_hook(Box::new(|_| {}));
     let mut failures: Vec<Value> = vec![];
     let mut counts = std::collections::BTreeMap::<String, u64>::new();
@@ -149,6 +152,35 @@ pub fn vectors(a: &Args) -> i32 {
                 // a body only for the exact JSON route; mounts are read (an empty body never mutates)
                 let req = if v["winner_kind"] == "exact" { Message::builder().id(1).query_str(&path).body_json(&json!({})).unwrap().build() } else { Message::builder().id(1).query_str(&path).build() };
                 evals += 1;
+                // the same lookup on the wire
+                {
+                    let key = v["order"].to_string();
+                    if !servers.contains_key(&key) {
+                        let l = std::net::TcpListener::bind("127.0.0.1:0").unwrap();
+                        let addr = l.local_addr().unwrap();
+                        let r2 = router.clone();
+                        std::thread::spawn(move || { let _ = repe::Server::new(r2).serve(l); });
+                        let c = std::net::TcpStream::connect(addr).unwrap();
+                        c.set_nodelay(true).ok();
+                        c.set_read_timeout(Some(std::time::Duration::from_secs(5))).ok();
+                        servers.insert(key.clone(), c);
+                    }
+                    let c = servers.get_mut(&key).unwrap();
+                    let mut wire_req = req.clone();
+                    wire_req.header.query_format = 1;
+                    let direct = router.get(&path).map(|h| { let mut q = req.clone(); q.header.query_format = 1; dispatch(&h, &q, false).0 });
+                    use std::io::Write;
+                    let got = if c.write_all(&wire_req.to_vec()).is_ok() { repe::read_message(c).ok() } else { None };
+                    match (&direct, &got) {
+                        (_, None) => fail("lookup:server:no-answer", format!("{path:?} sent to a blocking server: no response"), &v, &mut failures),
+                        (None, Some(m)) => if m.header.ec != ErrorCode::MethodNotFound as u32 {
+                            fail("lookup:server:routed", format!("{path:?} is not routed by the router, but the server answered ec {} body {:?}", m.header.ec, String::from_utf8_lossy(&m.body)), &v, &mut failures);
+                        },
+                        (Some(d), Some(m)) => if d["kind"] == "resp" && (json!(m.header.ec) != d["ec"] || (m.header.ec == 0 && json!(util::hex(&m.body)) != d["body"])) {
+                            fail("lookup:server:differs", format!("{path:?}: the server answered ec {} body {:?}, the router's own handler {d}", m.header.ec, String::from_utf8_lossy(&m.body)), &v, &mut failures);
+                        },
+                    }
+                }
                 match router.get(&path) {
                     None => {
                         if winner != 0 {
